@@ -563,6 +563,94 @@ theorem removeRxns_step (orphans : Bool) (rs : List Id) (y : Sys) (g : Good y.s)
       · intro x hx
         exact i3 x (fun e => hx (List.mem_cons_of_mem _ e))
 
+/-! ### a new gene rule -/
+
+theorem setRuleRaw_good {s : St} (g : Good s) (r : Id) (hr : s.hasR r = true) (rule : Option G) : Good (setRuleRaw s r rule) := by
+  have w := g.wf
+  refine ⟨⟨g.ns.rev_ne, g.ns.rev_inj⟩, ?_, ⟨g.sync.vars, g.sync.box, g.sync.rows, g.sync.coef, g.sync.objrev⟩⟩
+  constructor
+  · exact w.mr_iff
+  · exact w.st_has
+  · intro x gg hx
+    show (if x = r then (genesOpt rule).contains gg else s.rg x gg) = true ↔ gg ∈ genesOpt (upd s.rule r rule x)
+    by_cases hxr : x = r
+    · subst hxr; simp [upd]
+    · simp only [hxr, if_false, upd]; exact w.rg_rule x gg hx
+  · intro gg x hgg hx
+    show (if ((genesOpt rule).contains gg && !s.hasG gg) = true then decide (x = r) else if x = r then (genesOpt rule).contains gg else s.gr gg x) = true ↔
+      (if x = r then (genesOpt rule).contains gg else s.rg x gg) = true
+    by_cases hc : ((genesOpt rule).contains gg && !s.hasG gg) = true
+    · simp only [hc, if_true]
+      simp only [Bool.and_eq_true, Bool.not_eq_true'] at hc
+      have hm : gg ∈ genesOpt rule := by simpa using hc.1
+      by_cases hxr : x = r
+      · simp [hxr, hm]
+      · simp only [hxr, decide_false, if_false]
+        constructor
+        · intro h; cases h
+        · intro h
+          have := w.rg_has x gg hx h
+          rw [hc.2] at this; cases this
+    · simp only [hc, if_false]
+      by_cases hxr : x = r
+      · simp [hxr]
+      · simp only [hxr, if_false]
+        have hG : s.hasG gg = true := by
+          have h' : (s.hasG gg || (genesOpt rule).contains gg) = true := hgg
+          cases h1 : s.hasG gg with
+          | true => rfl
+          | false =>
+            rw [h1, Bool.false_or] at h'
+            have hm : gg ∈ genesOpt rule := by simpa using h'
+            simp [hm, h1] at hc
+        exact w.gr_iff gg x hG hx
+  · intro x gg hx h
+    show (s.hasG gg || (genesOpt rule).contains gg) = true
+    have h' : (if x = r then (genesOpt rule).contains gg else s.rg x gg) = true := h
+    by_cases hxr : x = r
+    · simp only [hxr, if_true] at h'
+      have hm : gg ∈ genesOpt rule := by simpa using h'
+      simp [hm]
+    · simp only [hxr, if_false] at h'; simp [w.rg_has x gg hx h']
+  · exact w.bounds
+  · exact w.inUniv
+  · intro gg x hgg h
+    have h' : (if ((genesOpt rule).contains gg && !s.hasG gg) = true then decide (x = r) else if x = r then (genesOpt rule).contains gg else s.gr gg x) = true := h
+    show s.hasR x = true
+    by_cases hc : ((genesOpt rule).contains gg && !s.hasG gg) = true
+    · simp only [hc, if_true, decide_eq_true_eq] at h'; rw [h']; exact hr
+    · simp only [hc, if_false] at h'
+      by_cases hxr : x = r
+      · rw [hxr]; exact hr
+      · simp only [hxr, if_false] at h'
+        have hG : s.hasG gg = true := by
+          have h'' : (s.hasG gg || (genesOpt rule).contains gg) = true := hgg
+          cases h1 : s.hasG gg with
+          | true => rfl
+          | false =>
+            rw [h1, Bool.false_or] at h''
+            have hm : gg ∈ genesOpt rule := by simpa using h''
+            simp [hm, h1] at hc
+        exact w.gr_has gg x hG h'
+  · exact w.mr_has
+
+/-- what assigning a rule does: the reaction's genes are the genes of the rule, every gene of the rule is in the model and lists the reaction, no
+    gene leaves the model, other reactions keep rule and genes, and nothing but rules and genes changes -/
+theorem setRuleRaw_effect (s : St) (r : Id) (rule : Option G) :
+    let s' := setRuleRaw s r rule
+    s'.rule r = rule ∧ (∀ gg, s'.rg r gg = true ↔ gg ∈ genesOpt rule) ∧ (∀ gg, gg ∈ genesOpt rule → s'.hasG gg = true ∧ s'.gr gg r = true) ∧
+    (∀ gg, s.hasG gg = true → s'.hasG gg = true) ∧ (∀ x, x ≠ r → s'.rule x = s.rule x ∧ s'.rg x = s.rg x) ∧
+    s'.hasR = s.hasR ∧ s'.hasM = s.hasM ∧ s'.lb = s.lb ∧ s'.ub = s.ub ∧ s'.st = s.st ∧ s'.mr = s.mr ∧
+    s'.hasV = s.hasV ∧ s'.vlb = s.vlb ∧ s'.vub = s.vub ∧ s'.hasC = s.hasC ∧ s'.co = s.co ∧ s'.obj = s.obj ∧ s'.dirMax = s.dirMax := by
+  refine ⟨by simp [setRuleRaw, upd], fun gg => by simp [setRuleRaw], ?_, fun gg h => by simp [setRuleRaw, h],
+    fun x hx => ⟨by simp [setRuleRaw, upd, hx], by funext gg; simp [setRuleRaw, hx]⟩, rfl, rfl, rfl, rfl, rfl, rfl, rfl, rfl, rfl, rfl, rfl, rfl, rfl⟩
+  intro gg hgg
+  have hc : (genesOpt rule).contains gg = true := by simpa using hgg
+  constructor
+  · simp [setRuleRaw, hgg]
+  · show (if ((genesOpt rule).contains gg && !s.hasG gg) = true then decide (r = r) else if r = r then (genesOpt rule).contains gg else s.gr gg r) = true
+    split <;> simp [hgg]
+
 /-! ### scaling a reaction -/
 
 theorem rat_scale_inv (a k : Rat) (hk : k ≠ 0) : a * k * (1 / k) = a := by
